@@ -29,6 +29,7 @@ type OutCase struct {
 	Session string     `json:"session"`
 	Status  string     `json:"status"`
 	ReqID   string     `json:"reqID"`
+	Direct  bool       `json:"direct,omitempty"` // signed by calling the exported SignAuthnRequest / SignLogoutRequest / SignLogoutResponse on the unsigned document's root
 }
 
 var keyModes = []string{"none", "tls", "custom", "setter", "both"}
@@ -201,6 +202,7 @@ func genOutCase(t *rapid.T, forceSigned bool) OutCase {
 		}
 	}
 	c.Signed = hasKey && (forceSigned || rapid.Bool().Draw(t, "signed"))
+	c.Direct = c.Signed && c.Kind != "authn-str" && rapid.IntRange(0, 3).Draw(t, "directSign") == 0
 	if c.Signed && strings.HasPrefix(c.Kind, "authn") {
 		c.SP.SignRequests = true
 	}
@@ -220,19 +222,25 @@ func (c *OutCase) produce() (string, *saml2.SAMLServiceProvider, error) {
 		s, err := sp.BuildAuthRequest()
 		return s, sp, err
 	case "authn-doc":
-		if c.Signed {
+		if c.Signed && c.Direct {
+			doc, err = signDirect(sp.BuildAuthRequestDocumentNoSig, sp.SignAuthnRequest)
+		} else if c.Signed {
 			doc, err = sp.BuildAuthRequestDocument()
 		} else {
 			doc, err = sp.BuildAuthRequestDocumentNoSig()
 		}
 	case "logout-req":
-		if c.Signed {
+		if c.Signed && c.Direct {
+			doc, err = signDirect(func() (*etree.Document, error) { return sp.BuildLogoutRequestDocumentNoSig(c.NameID, c.Session) }, sp.SignLogoutRequest)
+		} else if c.Signed {
 			doc, err = sp.BuildLogoutRequestDocument(c.NameID, c.Session)
 		} else {
 			doc, err = sp.BuildLogoutRequestDocumentNoSig(c.NameID, c.Session)
 		}
 	case "logout-resp":
-		if c.Signed {
+		if c.Signed && c.Direct {
+			doc, err = signDirect(func() (*etree.Document, error) { return sp.BuildLogoutResponseDocumentNoSig(c.Status, c.ReqID) }, sp.SignLogoutResponse)
+		} else if c.Signed {
 			doc, err = sp.BuildLogoutResponseDocument(c.Status, c.ReqID)
 		} else {
 			doc, err = sp.BuildLogoutResponseDocumentNoSig(c.Status, c.ReqID)
@@ -257,6 +265,22 @@ func (c *OutCase) produce() (string, *saml2.SAMLServiceProvider, error) {
 		return s, sp, fmt.Errorf("%w: first %.300s now %.300s", errHeldChanged, s, s2)
 	}
 	return s, sp, err
+}
+
+// signDirect builds the unsigned document and has its root signed by one of the exported Sign* functions.
+func signDirect(build func() (*etree.Document, error), sign func(*etree.Element) (*etree.Element, error)) (*etree.Document, error) {
+	d, err := build()
+	if err != nil {
+		return nil, err
+	}
+	el, err := sign(d.Root())
+	if err != nil {
+		return nil, err
+	}
+	out := etree.NewDocument()
+	out.WriteSettings = d.WriteSettings // serialise the way the library's own documents are set up to be
+	out.SetRoot(el)
+	return out, nil
 }
 
 var errHeldChanged = errors.New("a document returned earlier changed while later messages were built")
@@ -298,7 +322,7 @@ func (c *OutCase) charClasses() (cr, attrWS, interesting bool) {
 }
 
 func (c *OutCase) classes() []string {
-	cl := []string{"kind:" + c.Kind, fmt.Sprintf("signed:%v", c.Signed), "enc:" + c.SP.Enc.Mode, "sig:" + c.SP.Sig.Mode}
+	cl := []string{"kind:" + c.Kind, fmt.Sprintf("signed:%v", c.Signed), fmt.Sprintf("direct-sign:%v", c.Direct), "enc:" + c.SP.Enc.Mode, "sig:" + c.SP.Sig.Mode}
 	if c.Signed {
 		alg := c.SP.SignAlg
 		if alg == "" {
